@@ -34,10 +34,15 @@ DEVIATIONS = {
     "match_is_follower_last_index": dict(inv="LeaderCompleteness", n=3, term=3, log=1, ops=2, msgs=2,
                                          toseq=(1, 2, 1)),
     "future_keyed_by_index_only": dict(inv="FutureTruth", n=3, term=2, log=1, ops=2, msgs=2, toseq=(1, 2)),
+    # needs 5 nodes and ~36 steps: directed search along RaftImpl!StaleGuide
+    "stale_term_ae_response": dict(inv="LeaderCompleteness", n=5, term=4, log=2, ops=4, msgs=99, toseq=(),
+                                   guide="StaleGuide"),
 }
-# a contract clause that fails on an execution the as-code model reproduces is attributed to the
-# deviation that makes this clause fail in the model (checked by TLC: without it the clause holds)
-CLAUSE_DEV = {v["inv"]: k for k, v in DEVIATIONS.items()}
+# a contract clause that fails on an execution the as-code model reproduces is attributed to a
+# deviation that makes this clause fail in the model and that fired in the execution
+CLAUSE_DEV = {}
+for _k, _v in DEVIATIONS.items():
+    CLAUSE_DEV.setdefault(_v["inv"], []).append(_k)
 
 SITES = {
     "same_term_ae_clears_vote": "raft.py:_handle_append_entries/_step_down",
@@ -56,14 +61,14 @@ def tla_set(xs):
     return "{" + ",".join(f'"{x}"' for x in xs) + "}"
 
 
-def consts(n, dev, term, log, ops, msgs, crash=0, loss=True, toseq=(), sym=False):
+def consts(n, dev, term, log, ops, msgs, crash=0, loss=True, toseq=(), sym=False, guide="NoGuide"):
     if sym:
         nodes, nil = "{" + ",".join(f"n{i}" for i in range(1, n + 1)) + "}", "nil"
     else:
         nodes, nil = "{" + ",".join(str(i) for i in range(1, n + 1)) + "}", 0
     return {"Nodes": nodes, "Nil": nil, "Dev": tla_set(dev), "MaxTerm": term, "MaxLog": log, "MaxOps": ops,
             "MaxMsgs": msgs, "MaxCrash": crash, "Loss": "TRUE" if loss else "FALSE",
-            "TOCode": int("".join(str(x) for x in toseq) or "0")}
+            "TOCode": int("".join(str(x) for x in toseq) or "0"), "Guide": f"<- {guide}"}
 
 
 # ---------------------------------------------------------------------------
@@ -73,6 +78,7 @@ def model_check(chk, tier, known):
     wd = tlc.workdir("C11_mc")
     nw = max(2, tlc.DEFAULT_WORKERS // 2)
     jobs = []
+    cex = {}
 
     def job(name, c, *, invs=INVS, props=("AppliedInOrder",), sym=False, spec=None, constraints=("Bounded",),
             timeout=800, workers=nw, **kw):
@@ -84,24 +90,26 @@ def model_check(chk, tier, known):
     if tier == "quick":
         safe = [("elect_t2", consts(3, [], 2, 0, 0, 3, sym=True)),
                 ("repl_t2_l1", consts(3, [], 2, 1, 1, 2, sym=True)),
-                ("repl_t1_l2", consts(3, [], 1, 2, 2, 3, sym=True)),
+                ("repl_t1_l2", consts(3, [], 1, 2, 2, 2, sym=True)),
                 ("crash_t1_l1", consts(3, [], 1, 1, 1, 2, crash=1, sym=True))]
     else:
         safe = [("elect_t3", consts(3, [], 3, 0, 0, 3, sym=True)),
                 ("repl_t2_l1_m3", consts(3, [], 2, 1, 1, 3, sym=True)),
+                ("repl_t1_l2_m3", consts(3, [], 1, 2, 2, 3, sym=True)),
                 ("repl_t2_l2", consts(3, [], 2, 2, 2, 2, sym=True)),
                 ("repl_t3_l1", consts(3, [], 3, 1, 2, 2, sym=True)),
                 ("crash_t2_l1", consts(3, [], 2, 1, 1, 2, crash=1, sym=True)),
-                ("elect_n4_t1", consts(4, [], 1, 0, 0, 4, sym=True))]
+                ("elect_n4_t1", consts(4, [], 1, 0, 0, 3, sym=True))]
     for name, c in safe:
         jobs.append(("safe",) + job(name, c, sym=True, timeout=3000 if tier != "quick" else 600))
     for dev, d in DEVIATIONS.items():
-        c = consts(d["n"], [dev], d["term"], d["log"], d["ops"], d["msgs"], toseq=d["toseq"])
+        c = consts(d["n"], [dev], d["term"], d["log"], d["ops"], d["msgs"], toseq=d["toseq"],
+                   guide=d.get("guide", "NoGuide"))
         jobs.append(("dev:" + dev,) + job("dev_" + dev, c, invs=CLAUSES, props=(), workers=max(2, nw // 2)))
     # attribution: with every known deviation but d switched on, d's clause holds
     if tier != "quick":
         for dev in known:
-            if dev in DEVIATIONS:
+            if dev in DEVIATIONS and "guide" not in DEVIATIONS[dev]:
                 d = DEVIATIONS[dev]
                 c = consts(d["n"], [k for k in known if k != dev], d["term"], d["log"], d["ops"], d["msgs"],
                            toseq=d["toseq"])
@@ -124,7 +132,7 @@ def model_check(chk, tier, known):
             chk.require(res.violated == DEVIATIONS[dev]["inv"],
                         f"deviation {dev} not caught by {DEVIATIONS[dev]['inv']} (got {res.violated})")
             chk.sensitivity[dev] = res.violated
-            chk.extra.setdefault("counterexamples", {})[dev] = [a for a, _ in res.trace]
+            cex[dev] = res.trace
         elif kind.startswith("attr:"):
             dev = kind[5:]
             chk.add_tlc(f"RaftImpl Dev=known-{{{dev}}}", res, count=False,
@@ -133,6 +141,7 @@ def model_check(chk, tier, known):
         else:
             chk.add_tlc(f"RaftImpl fault-free Progress ({kind[5:]})", res)
             chk.require(res.ok, f"fault-free progress fails in the model ({kind}): {res.violated}")
+    return cex
 
 
 # ---------------------------------------------------------------------------
@@ -141,18 +150,64 @@ def model_check(chk, tier, known):
 _EDGE = re.compile(r'^(-?\d+) -> (-?\d+) \[label="(.*?)",color')
 
 
+_NODE = re.compile(r'^(-?\d+) \[label="(.*?)"(?:,style = filled)?\]')
+
+
 def parse_dot_edges(path):
-    """Edges and init nodes only (node labels with full states are skipped)."""
-    edges, inits = {}, []
+    """Edges, init nodes and the *raw* state text of every node (parsed lazily, only msgs/crashed)."""
+    edges, inits, raw = {}, [], {}
     with open(path) as f:
         for ln in f:
             if " -> " in ln[:48]:
                 m = _EDGE.match(ln)
                 if m:
                     edges.setdefault(int(m.group(1)), []).append((tlc._unesc(m.group(3)), int(m.group(2))))
-            elif "style = filled" in ln:
-                inits.append(int(ln.split(" ", 1)[0]))
-    return tlc.Graph({}, edges, inits)
+                continue
+            m = _NODE.match(ln)
+            if m:
+                nid = int(m.group(1))
+                raw.setdefault(nid, m.group(2))
+                if "style = filled" in ln:
+                    inits.append(nid)
+    return tlc.Graph(raw, edges, inits)
+
+
+class EdgeDecoder:
+    """TLC labels an edge with the bound parameters only when the quantifier ranges over a constant set;
+    message actions (\\E m \\in BagToSet(msgs)) are labelled "Next".  Their choice is recovered from the two
+    end states: the message that left the bag, whether the destination was crashed, whether anything else
+    changed."""
+
+    def __init__(self, g):
+        self.g = g
+        self.cache = {}
+
+    def info(self, nid):
+        c = self.cache.get(nid)
+        if c is None:
+            parts = {}
+            for chunk in tlc._unesc(self.g.nodes[nid]).split("/\\ ")[1:]:
+                var, _, val = chunk.partition(" = ")
+                parts[var.strip()] = val.strip()
+            bag = {W.msg_key(x): (x, cnt) for x, cnt in _bag(tlaval.parse_value(parts["msgs"]))}
+            c = (bag, tlaval.parse_value(parts["crashed"]), parts["nd"])
+            self.cache[nid] = c
+        return c
+
+    def action(self, src, lab, dst):
+        if lab != "Next":
+            return parse_label(lab)
+        b0, _, nd0 = self.info(src)
+        b1, down, nd1 = self.info(dst)
+        gone = [x for k, (x, c) in b0.items() if b1.get(k, (None, 0))[1] < c]
+        if len(gone) != 1:
+            raise ValueError(f"cannot recover the action of edge {src}->{dst}")
+        x = gone[0]
+        if x["dst"] in down:
+            return "DeliverCrashed", x
+        if nd0 == nd1 and sum(c for _, c in b1.values()) == sum(c for _, c in b0.values()) - 1:
+            return "Drop", x
+        return "Deliver", x
 
 
 def to_msg(v):
@@ -249,13 +304,16 @@ def apply_action(w, name, arg):
 def model_behaviours(chk, tier, known, rng):
     """Action sequences (root paths of the as-code model's state graph)."""
     if tier == "quick":
-        confs = [("g_t2_l1", consts(3, known, 2, 1, 1, 2), 700),
-                 ("g_crash", consts(3, known, 1, 1, 1, 2, crash=1), 300)]
+        confs = [("g_t2_l1", consts(3, known, 2, 1, 1, 2, toseq=(1, 2)), 500),
+                 ("g_crash", consts(3, known, 1, 1, 1, 2, crash=1, toseq=(1,)), 250),
+                 ("g_l2", consts(3, known, 1, 2, 2, 2, toseq=(2,)), 250)]
     else:
-        confs = [("g_t2_l1", consts(3, known, 2, 1, 2, 2), 6000),
-                 ("g_t3", consts(3, known, 3, 1, 2, 2, toseq=(1, 2, 1, 3)), 4000),
-                 ("g_l2", consts(3, known, 1, 2, 2, 3), 3000),
-                 ("g_crash", consts(3, known, 2, 1, 1, 2, crash=1, toseq=(1, 2, 3)), 3000)]
+        confs = [("g_t2_l1", consts(3, known, 2, 1, 1, 2, toseq=(1, 2)), 100000),
+                 ("g_crash", consts(3, known, 1, 1, 1, 2, crash=1, toseq=(1,)), 100000),
+                 ("g_l2", consts(3, known, 1, 2, 2, 2, toseq=(2,)), 100000),
+                 ("g_t2_o2", consts(3, known, 2, 1, 2, 2, toseq=(1, 3)), 100000),
+                 ("g_t3", consts(3, known, 3, 1, 2, 2, toseq=(1, 2, 1)), 6000),
+                 ("g_free", consts(3, known, 2, 1, 1, 2), 6000)]
     out = []
 
     def dump(item):
@@ -274,25 +332,30 @@ def model_behaviours(chk, tier, known, rng):
         chk.add_tlc(f"state graph {name} (Dev=as-code {known})", res, count=False,
                     note=f"{g.n_edges()} labelled edges")
         chk.require(g.inits and g.n_edges() > 0, f"empty state graph {name}")
-        paths = [[lab for lab, _ in p] for _, p in tlc.edge_tour(g, rng=random.Random(rng.random()), max_len=60)]
+        paths = [(root, p) for root, p in tlc.edge_tour(g, rng=random.Random(rng.random()), max_len=60)]
         chk.extra.setdefault("graph_edges", {})[name] = g.n_edges()
         chk.extra.setdefault("tour_paths", {})[name] = len(paths)
         full = len(paths) <= cap
         if not full:
             # keep the longest-reaching paths preferentially: half longest, half random
-            paths.sort(key=len, reverse=True)
+            paths.sort(key=lambda rp: len(rp[1]), reverse=True)
             head = paths[:cap // 2]
             tail = rng.sample(paths[cap // 2:], cap - len(head))
             paths = head + tail
         chk.extra.setdefault("tour_complete", {})[name] = full
-        out += [(name, p) for p in paths]
+        dec = EdgeDecoder(g)
+        for root, p in paths:
+            acts, src = [], root
+            for lab, dst in p:
+                acts.append(dec.action(src, lab, dst))
+                src = dst
+            out.append((name, acts))
     return out
 
 
-def replay_behaviour(labels, n=3):
+def replay_behaviour(acts, n=3):
     w = World(n)
-    for lab in labels:
-        name, arg = parse_label(lab)
+    for name, arg in acts:
         apply_action(w, name, arg)
     return w
 
@@ -491,8 +554,11 @@ def sim_run(rng, n, *, kind):
 # ---------------------------------------------------------------------------
 # 5. trace validation (RaftTrace.tla is the judge)
 
+_VLINE = re.compile(r'<<\s*"V",\s*(\d+),\s*"([^"]+)",\s*(\d+),\s*(\d+),\s*"([^"]*)"\s*>>')
+
+
 def validate(traces_by_n, dev, label, chunk=400):
-    """traces_by_n: {n: [trace dict]} -> {id: (verdict, pos, mpos)}, [TLCResult]"""
+    """traces_by_n: {n: [trace dict]} -> {id: (verdict, pos, mpos, [(clause, pos)])}, [TLCResult]"""
     wd = tlc.WORK / label
     wd.mkdir(parents=True, exist_ok=True)
     work = []
@@ -512,9 +578,10 @@ def validate(traces_by_n, dev, label, chunk=400):
         res = tlc.run(SPEC / "RaftTrace.tla", cfg, label=lab, workers=1, timeout=3000, heap="3g",
                       env={"TRACE_FILE": str(f)})
         got = {}
-        for v in res.printed:
-            if isinstance(v, tuple) and len(v) == 5 and v[0] == "V":
-                got[v[1]] = (v[2], v[3], v[4])
+        flat = re.sub(r"\s*\n\s*", " ", res.stdout)      # TLC wraps long PrintT values
+        for mt in _VLINE.finditer(flat):
+            fl = [(c.split(":")[0], int(c.split(":")[1])) for c in mt.group(5).split(";") if c]
+            got[int(mt.group(1))] = (mt.group(2), int(mt.group(3)), int(mt.group(4)), fl)
         miss = [t["id"] for t in part if t["id"] not in got]
         if miss:
             raise tlc.TLCFailure(f"{lab}: no verdict for traces {miss[:3]} (see {d / 'tlc.out'})")
@@ -530,40 +597,42 @@ def validate(traces_by_n, dev, label, chunk=400):
 
 
 def classify(chk, failing, traces, meta, known):
-    """failing: {tid: (verdict, pos, mpos)} with a PROP verdict under Dev=as-code.
-    A failure the as-code model reproduces exactly (no model mismatch up to the failing step) is caused by
-    the known deviations: it is keyed by the deviation that TLC shows responsible for that clause, provided
-    that deviation really fired in this execution (without it the model stops matching the code at or before
-    the failing step).  Everything else is keyed by the clause and is a VIOLATION."""
-    explained = {tid: v for tid, v in failing.items() if v[2] == 0 or v[2] > v[1]}
-    fired = {tid: set() for tid in explained}
-    if explained and known:
+    """failing: {tid: (verdict, pos, mpos, [(clause, first step)])} judged under Dev=as-code.
+    A clause failing at a step before any model mismatch belongs to an execution the as-code model
+    reproduces exactly, i.e. it is caused by the registered deviations.  It is keyed by a deviation that
+    (a) fired in this execution before that step (without it the model stops matching the code there) and
+    (b) preferably is one TLC shows able to break this clause.  A clause failing after a model mismatch, or
+    with no registered deviation involved, is keyed by the clause name: a VIOLATION."""
+    expl = {tid for tid, v in failing.items() if any(v[2] == 0 or v[2] > p for _, p in v[3])}
+    first_fire = {tid: {} for tid in expl}          # tid -> {deviation: first step where it made a difference}
+    if expl and known:
         by_n = {}
-        for tid in explained:
+        for tid in sorted(expl):
             by_n.setdefault(meta[tid]["n"], []).append(traces[tid])
         for d in known:
             v2, r2 = validate(by_n, [k for k in known if k != d], f"C11_attr_{d[:12]}")
             for r in r2:
                 chk.add_tlc(f"RaftTrace Dev=as-code minus {d} (attribution)", r, count=False)
-            for tid, (_, pos, _) in explained.items():
-                vd, p2, m2 = v2[tid]
-                if m2 != 0 and m2 <= pos:
-                    fired[tid].add(d)
-    for tid, (verdict, pos, mpos) in sorted(failing.items()):
-        clause = verdict[5:]
-        st = traces[tid]["steps"][pos - 1]
-        what = f"{verdict} at step {pos} ({st['a']} on n{st.get('n', '?')}) of a {meta[tid]['origin']} execution"
-        replay = {"meta": meta[tid], "trace": traces[tid], "verdict": [verdict, pos, mpos]}
-        if tid in explained and fired[tid]:
-            d = CLAUSE_DEV.get(clause)
-            if d not in fired[tid]:
-                d = sorted(fired[tid])[0]
-            chk.violation(d, f"{what}; reproduced exactly by the model with deviation {d} "
-                             f"({SITES.get(d, '')})", replay)
-        else:
-            why = "model mismatch at step %d precedes it" % mpos if tid not in explained else \
-                "the model reproduces it with no known deviation involved"
-            chk.violation(clause, f"{what}; {why}", replay)
+            for tid in expl:
+                if v2[tid][2] != 0:
+                    first_fire[tid][d] = v2[tid][2]
+    for tid, (verdict, pos0, mpos, fl) in sorted(failing.items()):
+        for clause, pos in fl:
+            st = traces[tid]["steps"][pos - 1]
+            what = (f"PROP:{clause} at step {pos} ({st['a']} on n{st.get('n', '?')}) of a "
+                    f"{meta[tid]['origin']} execution ({meta[tid]['n']} nodes)")
+            replay = {"meta": meta[tid], "trace": traces[tid], "verdict": [verdict, pos0, mpos, fl]}
+            reproduced = mpos == 0 or mpos > pos
+            fired = sorted(d for d, p in first_fire.get(tid, {}).items() if p <= pos) if reproduced else []
+            if fired:
+                pref = [d for d in CLAUSE_DEV.get(clause, []) if d in fired]
+                d = pref[0] if pref else fired[0]
+                chk.violation(d, f"{what}; the model with the registered deviations reproduces the execution "
+                                 f"exactly, deviation {d} ({SITES.get(d, '')}) fired before it", replay)
+            else:
+                why = f"code and model already disagree at step {mpos}" if not reproduced else \
+                    "the model reproduces it with no registered deviation involved"
+                chk.violation(clause, f"{what}; {why}", replay)
 
 
 # ---------------------------------------------------------------------------
@@ -578,7 +647,7 @@ def run(tier, seed, replay=None):
     if replay:
         return run_replay(chk, replay, known)
 
-    model_check(chk, tier, known)
+    cex = model_check(chk, tier, known)
 
     traces, meta = {}, {}
 
@@ -591,12 +660,19 @@ def run(tier, seed, replay=None):
             chk.note_drift(f"trace {tid} ({origin}): {note}")
         return tid
 
-    # spec -> code
+    # spec -> code: TLC's counterexample for every deviation, executed on the real nodes (R1: a deviation
+    # is a finding only if the real objects reach the bad state)
+    cex_tid = {}
+    for dev, tr in cex.items():
+        acts = actions_from_trace(tr)
+        w = replay_behaviour(acts, DEVIATIONS[dev]["n"])
+        cex_tid[dev] = add(w, f"model:counterexample:{dev}", DEVIATIONS[dev]["n"], acts=acts)
+        chk.replays += 1
     skipped = 0
-    for gname, labels in model_behaviours(chk, tier, known, rng):
-        w = replay_behaviour(labels)
+    for gname, acts in model_behaviours(chk, tier, known, rng):
+        w = replay_behaviour(acts)
         skipped += w.skipped
-        add(w, f"model:{gname}", 3, labels=labels)
+        add(w, f"model:{gname}", 3, acts=acts)
         chk.replays += 1
     chk.extra["model_choices_inapplicable_on_code"] = skipped
     if skipped:
@@ -607,9 +683,10 @@ def run(tier, seed, replay=None):
     styles = {}
     for k in range(n_rand):
         n = (3, 3, 5, 4)[k % 4]
-        w, style = random_schedule(rng, n, rng.randint(25, 90) if quick else rng.randint(30, 160))
+        sub, steps = rng.randrange(1 << 30), rng.randint(25, 90) if quick else rng.randint(30, 160)
+        w, style = random_schedule(random.Random(sub), n, steps)
         styles[style] = styles.get(style, 0) + 1
-        add(w, f"random:{style}", n)
+        add(w, f"random:{style}", n, sub=sub, steps=steps)
     chk.extra["random_schedules"] = styles
 
     # code -> spec, real Simulation
@@ -619,13 +696,15 @@ def run(tier, seed, replay=None):
     sim_events = 0
     for k in range(n_sim):
         kind = "scenario" if k % 12 == 0 else "adversarial"
-        sw, m, _ = sim_run(rng, (3, 5, 3, 4)[k % 4], kind=kind)
+        sub = rng.randrange(1 << 30)
+        sw, m, _ = sim_run(random.Random(sub), (3, 5, 3, 4)[k % 4], kind=kind)
         sim_events += m["events"]
-        add(sw, f"sim:{kind}", sw.n, sim=m)
+        add(sw, f"sim:{kind}", sw.n, sim=m, sub=sub, kind=kind)
     for k in range(n_ff):
-        sw, m, prog = sim_run(rng, (3, 5, 4)[k % 3], kind="faultfree")
+        sub = rng.randrange(1 << 30)
+        sw, m, prog = sim_run(random.Random(sub), (3, 5, 4)[k % 3], kind="faultfree")
         sim_events += m["events"]
-        tid = add(sw, "sim:faultfree", sw.n, sim=m)
+        tid = add(sw, "sim:faultfree", sw.n, sim=m, sub=sub, kind="faultfree")
         if prog:
             prog_fail.append((tid, prog))
     chk.extra["simulation_events"] = sim_events
@@ -639,10 +718,16 @@ def run(tier, seed, replay=None):
         chk.add_tlc(f"RaftTrace batch (Dev=as-code {known})", r)
     chk.impl_traces = len(traces)
 
-    failing = {tid: v for tid, v in verdicts.items() if v[0].startswith("PROP:")}
+    failing = {tid: v for tid, v in verdicts.items() if v[3]}
     drift = {tid: v for tid, v in verdicts.items() if v[0].startswith("MODEL:")}
     for tid, v in sorted(drift.items())[:20]:
         chk.note_drift(f"trace {tid} ({meta[tid]['origin']}): {v[0]} at step {v[1]}")
+    chk.extra["counterexample_on_real_nodes"] = {d: list(verdicts[t][:3]) for d, t in cex_tid.items()}
+    for d, t in cex_tid.items():
+        hit = any(c == DEVIATIONS[d]["inv"] for c, _ in verdicts[t][3])
+        if d in known and not hit:
+            chk.note_drift(f"registered deviation {d}: TLC's counterexample no longer fails on the real nodes "
+                           f"({verdicts[t][0]}); the finding may have been fixed")
     chk.extra["traces_accepted"] = sum(1 for v in verdicts.values() if v[0] == "ACCEPT")
     chk.extra["traces_with_contract_failure"] = len(failing)
     chk.extra["traces_with_model_mismatch_only"] = len(drift)
@@ -695,16 +780,24 @@ def run_replay(chk, path, known):
     m = rp["meta"]
     origin = m["origin"]
     if origin.startswith("model"):
-        w = replay_behaviour(m["labels"])
+        w = replay_behaviour(m["acts"])
         t = w.trace(1)
+    elif origin.startswith("random"):
+        w, _ = random_schedule(random.Random(m["sub"]), m["n"], m["steps"])
+        t = w.trace(1)
+    elif origin.startswith("sim"):
+        sw, _, prog = sim_run(random.Random(m["sub"]), m["n"], kind=m["kind"])
+        t = sw.trace(1)
+        if prog and data["key"] == "progress_fault_free":
+            chk.violation("progress_fault_free", f"fault-free run: {prog[0]}", rp)
     else:
-        t = dict(rp["trace"], id=1)     # random / simulation executions: re-judge the recorded execution
+        t = dict(rp["trace"], id=1)
     v, res = validate({m["n"]: [t]}, known, "C11_replay")
     chk.impl_traces = 1
     for r in res:
         chk.add_tlc("RaftTrace replay", r)
     verdict = v[1]
     print(f"replay verdict: {verdict}")
-    if verdict[0].startswith("PROP:"):
+    if verdict[3]:
         classify(chk, {1: verdict}, {1: t}, {1: m}, known)
     return chk.finish()
